@@ -205,6 +205,9 @@ def run(run: Run) -> None:
                 sim.end_session("stopped-by-consumer", None)
                 run.probe("session_cut")
                 break
+            except fakenet.Hang as e:
+                run.violation("C20", "transport-hang", "join-never-returns", "the run does not end: %s\nops:\n%s" % (e, "\n".join(run.ops[-20:])))
+                break
             except fakenet.Deadlock as e:
                 run.violation("C20", "transport-deadlock", "all-threads-blocked", "every thread is blocked with no wake-up time: %s\nops:\n%s" % (e, "\n".join(run.ops[-20:])))
                 break
